@@ -55,6 +55,10 @@ def the_dep() -> str:
     return "DEP-VALUE"
 
 
+def the_int_dep() -> int:
+    return 41
+
+
 META = {
     "kind": "inputs",
     "engine": "E3 bounded-exhaustive enumeration of generated task signatures x call shapes through kiq -> formatter bytes -> Receiver.callback, against inspect.Signature.bind + TypeAdapter",
@@ -82,7 +86,7 @@ META = {
 
 TWIN = "VW"  # V / W: two distinct classes with identical repr (only used in the dedicated twin signatures)
 FRONT = "uAisMDfTN"  # kinds without default (f float, T Tuple[int, ...], N model whose fields all have defaults)
-BACK = "dPC"  # kinds with default (annotated default, dependency, Context)
+BACK = "dPCQ"  # kinds with default (annotated default, str dependency, Context, int dependency)
 ANNOT = {"u": None, "A": "Any", "i": "int", "s": "str", "M": "Model", "D": "DC", "d": "int", "f": "float", "T": "TupleOfInt", "N": "ModelAllDefaults", "V": "EventV1", "W": "EventV2"}
 
 
@@ -122,6 +126,8 @@ def build_function(pos: str, tail: str, rec: List[Any]) -> Any:
             params.append(f"{nm}: int = 5")
         elif k == "P":
             params.append(f"{nm}: str = TaskiqDepends(the_dep)")
+        elif k == "Q":
+            params.append(f"{nm}: int = TaskiqDepends(the_int_dep)")
         elif k == "C":
             params.append(f"{nm}: Context = TaskiqDepends()")
     if tail:
@@ -131,7 +137,7 @@ def build_function(pos: str, tail: str, rec: List[Any]) -> Any:
             names.append(nm)
             params.append(f"{nm}: int" if k == "I" else nm)
     src = f"async def gen_task({', '.join(params)}):\n    _rec.append(dict({', '.join(f'{n}={n}' for n in names)}))\n    return None\n"
-    ns = {"_rec": rec, "Any": Any, "Model": Model, "DC": DC, "TupleOfInt": TupleOfInt, "ModelAllDefaults": ModelAllDefaults, "EventV1": EventV1, "EventV2": EventV2, "TaskiqDepends": TaskiqDepends, "the_dep": the_dep,
+    ns = {"_rec": rec, "Any": Any, "Model": Model, "DC": DC, "TupleOfInt": TupleOfInt, "ModelAllDefaults": ModelAllDefaults, "EventV1": EventV1, "EventV2": EventV2, "TaskiqDepends": TaskiqDepends, "the_dep": the_dep, "the_int_dep": the_int_dep,
           "Context": Context, "__name__": "mc.props.c08"}
     exec(src, ns)  # noqa: S102
     fn = ns["gen_task"]
@@ -238,8 +244,8 @@ def run_signature(sig: Tuple[str, str], acc: Acc, sers: List[str]) -> None:
     rec: List[Any] = []
     fn, names = build_function(pos, tail, rec)
     kinds = list(pos) + list(tail)
-    real_pos = [j for j, k in enumerate(pos) if k not in "PC"]
-    first_injected = next((j for j, k in enumerate(pos) if k in "PC"), len(pos))
+    real_pos = [j for j, k in enumerate(pos) if k not in "PCQ"]
+    first_injected = next((j for j, k in enumerate(pos) if k in "PCQ"), len(pos))
     max_prefix = len([j for j in real_pos if j < first_injected])
     refsig = inspect.signature(fn)
     if any(k in "uAU" for k in pos[:-1]) and any(k in "isMDdfTN" for k in pos):
@@ -281,7 +287,7 @@ def run_signature(sig: Tuple[str, str], acc: Acc, sers: List[str]) -> None:
                     skip = False
                     for j, k in enumerate(kinds):
                         nm = names[j]
-                        if k in "PC":
+                        if k in "PCQ":
                             continue
                         if k == "d" and omit_default:
                             if j < prefix:
@@ -299,12 +305,13 @@ def run_signature(sig: Tuple[str, str], acc: Acc, sers: List[str]) -> None:
                     except TypeError:
                         continue
                     variants = [(args, kwargs, bound)]
-                    dep_names = [names[j] for j, k in enumerate(pos) if k == "P"]
+                    dep_names = [(names[j], k) for j, k in enumerate(pos) if k in "PQ"]
                     if dep_names and scheme in ("conv", "native") and not omit_default:
-                        # the caller passes an explicit value for a dependency parameter: it must win
+                        # the caller passes an explicit value for a dependency parameter: it must win and,
+                        # for an annotated parameter, be converted like any other argument
                         kw2 = dict(kwargs)
-                        for dn in dep_names:
-                            kw2[dn] = f"explicit-{dn}"
+                        for dn, dk in dep_names:
+                            kw2[dn] = f"explicit-{dn}" if dk == "P" else ("77" if scheme == "conv" else 78)
                         try:
                             variants.append((args, kw2, refsig.bind_partial(*args, **kw2)))
                         except TypeError:
@@ -332,6 +339,8 @@ def run_signature(sig: Tuple[str, str], acc: Acc, sers: List[str]) -> None:
                             nm = names[j]
                             if k == "P":
                                 want: Any = bound.arguments.get(nm, "DEP-VALUE")
+                            elif k == "Q":
+                                want = expected_value("i", bound.arguments[nm], validate) if nm in bound.arguments else 41
                             elif k == "C":
                                 if not isinstance(got[nm], Context) or got[nm].message.task_name != "c08:gen":
                                     acc.violation("context-param", f"{case}: parameter {nm} received {got[nm]!r}", {"case": case})
@@ -375,7 +384,7 @@ def _sig_text(pos: str, tail: str) -> str:
     for j, k in enumerate(pos):
         parts.append({"V": f"p{j}: Event(v1)", "W": f"p{j}: Event(v2)", "u": f"p{j}", "A": f"p{j}: Any", "i": f"p{j}: int", "s": f"p{j}: str", "M": f"p{j}: Model", "D": f"p{j}: DC",
                       "f": f"p{j}: float", "T": f"p{j}: Tuple[int, ...]", "N": f"p{j}: ModelAllDefaults",
-                      "d": f"p{j}: int = 5", "P": f"p{j}=Depends(dep)", "C": f"p{j}: Context=Depends()"}[k])
+                      "d": f"p{j}: int = 5", "P": f"p{j}=Depends(dep)", "Q": f"p{j}: int = Depends(int_dep)", "C": f"p{j}: Context=Depends()"}[k])
     if tail:
         parts.append("*")
         parts += [f"k{j}: int" if k == "I" else f"k{j}" for j, k in enumerate(tail)]
